@@ -15,9 +15,14 @@ class ThreadGen:
         ops = [f'probe {r.randrange(self.cap)}']
         base = t * nvars_per
         if kind == 'id':
-            ops.append('gid')
-            if r.random() < 0.7:
-                ops.append('hbget')
+            if r.random() < 0.3:
+                # the thread's first IDManager call is GetHeartBeat (the order in which the thread-local objects of the
+                # implementation come into existence, and hence die, may depend on it)
+                ops += ['hbget', 'gid', 'hbget']
+            else:
+                ops.append('gid')
+                if r.random() < 0.7:
+                    ops.append('hbget')
             for _ in range(r.randrange(0, 3)):
                 ops.append(r.choice(['gid', 'hbget', 'gid']))
             if r.random() < 0.5:
